@@ -76,7 +76,13 @@ ref::File buildFile(const std::vector<Op> &ops, FileInfo *info) {
     if (static_cast<size_t>(first) + nF - 1 > 65535) first = static_cast<unsigned>(65535 - (nF ? nF - 1 : 0));
     if (first != 1) I.tags.insert("first-frame>1");
     I.nPoints = nP; I.nChannels = nC; I.nSub = nSub; I.nFrames = nF;
-    const float prate = fileRate(rateIdx);
+    float prateTmp = fileRate(rateIdx);
+    if (const Op *o = findOp(ops, "frawrate")) {       // arbitrary finite positive frame rate (bit pattern); needs no analog data so that no rate ratio is involved
+        uint32_t bits = static_cast<uint32_t>(absmod(o->arg(0), 1LL << 32));
+        float v = bitsToFloat(bits);
+        if (v == v && v > 0.f && v < 1.0e5f && nC == 0) { prateTmp = v; nSub = 1; I.tags.insert("raw-frame-rate"); }
+    }
+    const float prate = prateTmp;
     const float arate = prate * static_cast<float>(nSub);
     f.h.nPoints = static_cast<unsigned>(nP); f.h.nAnalogMeas = static_cast<unsigned>(nC * nSub);
     f.h.first = first; f.h.last = nF ? static_cast<unsigned>(first + nF - 1) : first;
@@ -169,6 +175,7 @@ ref::File buildFile(const std::vector<Op> &ops, FileInfo *info) {
         if (id > static_cast<int>(usedIds.size()) + 1) I.tags.insert("sparse-group-id");
     }
     std::set<std::string> customNames;
+    size_t customBytes = 0;          // the whole parameter section must stay well below 255 blocks
     for (const Op &o : ops) {
         if (o.code != "fparam") continue;
         ref::Rec p;
@@ -184,11 +191,13 @@ ref::File buildFile(const std::vector<Op> &ops, FileInfo *info) {
         for (size_t i = 0; i < nd; ++i) {
             int d = static_cast<int>(clampll(o.arg(4 + i), 0, 255));
             // keep a record inside what a 16-bit next-offset can address, and the number of (possibly zero-length) values bounded
-            if (prodNZ * static_cast<size_t>(d ? d : 1) * static_cast<size_t>(p.type < 0 ? 1 : p.type) > 20000) d = 1;
+            if (prodNZ * static_cast<size_t>(d ? d : 1) * static_cast<size_t>(p.type < 0 ? 1 : p.type) > 62000) d = 1;
             p.dims.push_back(d); prod *= static_cast<size_t>(d); prodNZ *= static_cast<size_t>(d ? d : 1);
         }
         Rng r(static_cast<uint64_t>(o.arg(11)));
         size_t n = ref::rawSize(p);
+        if (customBytes + n > 100000) { customNames.erase(key); continue; }
+        customBytes += n + 300;
         if (p.type == -1) {
             size_t len = nd >= 1 ? static_cast<size_t>(p.dims[0]) : 1;
             size_t cnt = len ? n / len : 0;
